@@ -56,6 +56,10 @@ CHECKS = {
                 technique="preemption-bounded exhaustive DFS over schedules of real threads (senders, migration controller, replier) at cfg-guarded scheduling points before every shared-memory access of the blocking queue",
                 text="The real BlockingMap / TaskBlockingQueue / BlockingHandle / BiAtomicU32 run with harness inner and re-dispatch senders under a cooperative scheduler; scenarios: 1-2 senders (1-2 tasks, hints computed like the migrating task does, or NotBlocking), a controller (start_blocking, wait for blocking_done, hold, drop) and a replier; every schedule with <= 2 (thorough 3) preemptions is executed; oracle: no task reaches the backend sender between the moment blocking_done() was observed and the handle drop, every task is dispatched exactly once (backend, re-dispatch or answered), nothing stays queued, no deadlock/livelock.",
                 note="Waiting loops are modelled as blocking on precise events (so spinning does not unroll); only SeqCst interleavings at the hooked points are explored (orderings and point coverage are checked textually on every run; a pass is refused if coverage is incomplete). crossbeam_channel and DashMap internals are treated as atomic operations."),
+    "C16": dict(engine="hostile", cat="model_checking", ref="3/C16",
+                technique="bounded-exhaustive enumeration of hostile inputs (raw bytes, length prefixes, nesting, truncations, every command x extreme arguments, control messages with extreme numbers) executed on the real decoder and handler in a watched child process with a counting allocator",
+                text="Every input of four finite families is decoded by the real session codec and handled by the real ForwardHandler (metadata unset and set) on a 2 MiB stack inside a child process; per input the parent records panic, process death (abort, stack overflow, allocator refusal above 1 GiB), peak extra memory (<= 64*len + 4 MiB), wall time (3 s watchdog, 2 s slow limit), reply within 100 virtual seconds or connection close, and that a second connection's PING is still answered.",
+                note="Resource clauses are measured with fixed constants on bounded families - evidence for the explored inputs, not a proof for all lengths. Blocking pops are judged against their own timeout. Trusted: counting allocator, watchdog, Redis stand-in."),
 }
 
 NOT_YET = {
